@@ -136,7 +136,11 @@ func (h *History) Step() {
 			if j == 0 && rapid.IntRange(0, 3).Draw(t, "asMempoolTx") == 0 {
 				kind = validation.MempoolTx
 			}
-			err := r.Pool.AddExternalTxs(kind, tx)
+			wireTx := tx
+			if j > 0 {
+				wireTx = WireCopyTx(tx) // every node holds its own decoded object
+			}
+			err := r.Pool.AddExternalTxs(kind, wireTx)
 			if j == 0 {
 				firstErr = err
 			}
